@@ -96,7 +96,13 @@ class SymArr(np.ndarray):
     _real_only = False      # set on arrays created with a real dtype: assignments drop imaginary parts (NumPy's cast)
 
     def __array_finalize__(self, obj):
-        self._real_only = getattr(obj, '_real_only', False) if obj is not None else False
+        # views share the element type of their base; fresh results of arithmetic do not inherit it
+        self._real_only = getattr(obj, '_real_only', False) if (obj is not None and self.base is not None) else False
+
+    def copy(self, *a, **kw):
+        r = super().copy(*a, **kw)
+        r._real_only = self._real_only
+        return r
 
     @property
     def dtype(self):
@@ -310,7 +316,7 @@ def oarr(x):
     shp = xs[0].shape
     a = np.empty((len(xs),) + shp, dtype=object)
     for i, e in enumerate(xs):
-        a[i] = e
+        a[i] = e[()] if e.ndim == 0 else e
     return a
 
 
@@ -490,7 +496,9 @@ class NPProxy:
         if self._force_object:
             a = np.empty(shape, dtype=object)
             a[...] = 1
-            return a.view(SymArr)
+            a = a.view(SymArr)
+            a._real_only = _is_real_dtype(dtype)
+            return a
         return np.ones(shape, dtype=dtype, **kw)
 
     def empty(self, shape, dtype=None, **kw):
@@ -506,7 +514,9 @@ class NPProxy:
         if _is_sym(fill) or self._force_object:
             a = np.empty(shape, dtype=object)
             a[...] = fill
-            return a.view(SymArr)
+            a = a.view(SymArr)
+            a._real_only = _is_real_dtype(dtype) if dtype is not None else not isinstance(fill, (SymC, complex, np.complexfloating))
+            return a
         return np.full(shape, fill, dtype=dtype, **kw)
 
     def array(self, x, dtype=None, **kw):
@@ -766,11 +776,29 @@ class NPProxy:
     def isscalar(self, x):
         return _is_sym(x) or np.isscalar(x)
 
+    def result_type(self, *args):
+        kinds = []
+        for a in args:
+            d = a.dtype if isinstance(a, np.ndarray) else a
+            if isinstance(d, SymDType):
+                kinds.append(d.sym_kind)
+            elif isinstance(d, (Sym, SymB)):
+                kinds.append('f')
+            elif isinstance(d, SymC):
+                kinds.append('c')
+            else:
+                kinds.append(None)
+        if builtins.all(k is None for k in kinds):
+            return np.result_type(*args)
+        rest = [a for a, k in zip(args, kinds) if k is None]
+        base = np.result_type(*rest) if rest else np.dtype(float)
+        return SymDType('c' if ('c' in kinds or base.kind == 'c') else 'f')
+
 
 def _is_real_dtype(dtype):
-    """an explicitly requested real element type (NumPy would drop imaginary parts on assignment)"""
+    """a real element type, requested or by NumPy's default float64 (NumPy drops imaginary parts on assignment)"""
     if dtype is None:
-        return False
+        return True
     if isinstance(dtype, SymDType):
         return dtype.sym_kind == 'f'
     try:
